@@ -354,6 +354,7 @@ type plRun struct {
 	wrapped     map[*replicateChannelHandler]bool
 	inAddPart   map[int64]bool
 	inStart     map[int64]string // goroutine id -> driver name, while the driver is inside StartReadCollection
+	hmu         sync.Mutex       // harness bookkeeping (only contended in the free-running race pass)
 }
 
 var plExecSeq int
@@ -406,7 +407,10 @@ func plExecute(t *testing.T, sc *plScenario, ctl *sched.Ctl) *plRun {
 	r.target = &plTarget{colls: map[string]*model.CollectionInfo{}}
 	if sc.ParkTargetInStart {
 		r.target.park = func(name string) {
-			if drv, ok := r.inStart[schedGoid()]; ok {
+			r.hmu.Lock()
+			drv, ok := r.inStart[schedGoid()]
+			r.hmu.Unlock()
+			if ok {
 				ctl.Point("drv:"+drv, "target-lookup", false)
 			}
 		}
@@ -445,7 +449,9 @@ func plExecute(t *testing.T, sc *plScenario, ctl *sched.Ctl) *plRun {
 	r.mgr.SetCtx(ctx)
 	util.SetVerifPointFunc(func(name, key string) {
 		if name == "pack.computed" {
+			r.hmu.Lock()
 			r.computed = append(r.computed, key)
+			r.hmu.Unlock()
 		}
 		if sc.Hooks != "all" && name != "pack.computed" && name != "barrier.signal" {
 			return
@@ -459,12 +465,14 @@ func plExecute(t *testing.T, sc *plScenario, ctl *sched.Ctl) *plRun {
 			case <-ctx.Done():
 				return
 			case e := <-r.mgr.apiEventChan:
+				r.hmu.Lock()
 				snap := map[string]int{}
 				for k, v := range r.delivered {
 					snap[k] = v
 				}
 				r.events = append(r.events, e)
 				r.evDelivered = append(r.evDelivered, snap)
+				r.hmu.Unlock()
 				r.applyEvent(e)
 			}
 		}
@@ -486,19 +494,27 @@ func plExecute(t *testing.T, sc *plScenario, ctl *sched.Ctl) *plRun {
 						seek = append(seek, &msgpb.MsgPosition{ChannelName: pc, MsgID: []byte("start-" + pc), Timestamp: plTs(c.SeekMs, 0)})
 					}
 				}
+				r.hmu.Lock()
 				r.inStart[schedGoid()] = name
+				r.hmu.Unlock()
 				err = r.mgr.StartReadCollection(tctx, &model.DatabaseInfo{ID: 1, Name: c.DB}, c.info(), seek, nil)
+				r.hmu.Lock()
 				delete(r.inStart, schedGoid())
+				r.hmu.Unlock()
 			case "addpart":
 				r.wrapHandlers()
+				r.hmu.Lock()
 				r.inAddPart[schedGoid()] = true
+				r.hmu.Unlock()
 				err = r.mgr.AddPartition(tctx, &model.DatabaseInfo{ID: 1, Name: c.DB}, c.info(),
 					&pb.PartitionInfo{PartitionID: c.partID(d.Part), PartitionName: d.Part, CollectionId: c.ID, PartitionCreatedTimestamp: plTs(950, 0), State: d.PartState})
 			case "stop":
 				err = r.mgr.StopReadCollection(tctx, c.info())
 			}
+			r.hmu.Lock()
 			r.driverErr[name] = err
 			r.driverDone[name] = true
+			r.hmu.Unlock()
 		}()
 	}
 	if sc.Clock > 0 {
@@ -567,7 +583,10 @@ func (r *plRun) wrapHandlers() {
 		r.wrapped[h] = true
 		orig, key := h.isDroppedCollection, key
 		h.isDroppedCollection = func(id int64) bool {
-			if r.inAddPart[schedGoid()] {
+			r.hmu.Lock()
+			in := r.inAddPart[schedGoid()]
+			r.hmu.Unlock()
+			if in {
 				r.ctl.Point("addpart:"+key, "probe", false)
 			}
 			return orig(id)
@@ -580,7 +599,9 @@ type plSched struct{ r *plRun }
 func (s plSched) Point(key, label string, free bool) {
 	s.r.ctl.Point(key, label, free)
 	if label == "deliver" {
+		s.r.hmu.Lock()
 		s.r.delivered[strings.TrimPrefix(key, "stream:")]++
+		s.r.hmu.Unlock()
 	}
 }
 
